@@ -27,13 +27,24 @@ func verifSet(s cpuset.CPUSet) string {
 	return strings.Join(p, "+")
 }
 
+func verifPB(b *bool) string {
+	if b == nil {
+		return "-"
+	}
+	return strconv.FormatBool(*b)
+}
+
 // VerifSnapshot renders pools (free/total supplies, counters) and grants, one item per line.
 func VerifSnapshot(b policyapi.Backend) []string {
 	p, ok := b.(*policy)
 	if !ok || p.root == nil {
 		return []string{"PS none"}
 	}
-	out := []string{fmt.Sprintf("PS allowed=%s reserved=%s isolated=%s pincpu=%v pinmem=%v", verifSet(p.allowed), verifSet(p.reserved), verifSet(p.isolated), p.cfg.PinCPU, p.cfg.PinMemory)}
+	// the options IN FORCE are the package-level `opt`/`defaultPrio` the allocation code consults (not p.cfg)
+	out := []string{fmt.Sprintf("PS allowed=%s reserved=%s isolated=%s pincpu=%v pinmem=%v", verifSet(p.allowed), verifSet(p.reserved), verifSet(p.isolated), opt.PinCPU, opt.PinMemory),
+		fmt.Sprintf("PO pincpu=%v;pinmem=%v;prefiso=%v;prefshared=%v;colocpods=%v;colocns=%v;reservedns=%s;defprio=%v;cfg-pincpu=%v;cfg-pinmem=%v",
+			opt.PinCPU, opt.PinMemory, verifPB(opt.PreferIsolated), verifPB(opt.PreferShared), opt.ColocatePods, opt.ColocateNamespaces,
+			strings.Join(opt.ReservedPoolNamespaces, "+"), defaultPrio, p.cfg.PinCPU, p.cfg.PinMemory)}
 	for _, n := range p.pools {
 		parent := "-"
 		if !n.Parent().IsNil() {
